@@ -58,130 +58,247 @@ def _is_view(t, depth=0):
     return False
 
 
+class _Collect:
+    """obligations of one evaluation of the stepping rules (on the inlined or on the as-written program)"""
+    def __init__(self):
+        self.obs, self.floors = [], []
+
+    def ob(self, rule, inst, ok, where="", detail=""):
+        self.obs.append((rule, inst, bool(ok), where, detail))
+        return ok
+
+    def floor(self, *a, **k):
+        self.floors.append((a, k))
+
+    def good(self):
+        return bool(self.obs) and all(o[2] for o in self.obs)
+
+
+def stepping_rules(OB, prog, eff, prim):
+    # ------------------------------------------------------------ find the width-switching routine by effect
+    cands = []
+    for b in prog.bodies:
+        if b.kind == "Promoted":
+            continue
+        sw = [(pos, t) for pos, t in b.terms() if t["k"] == "switch" and len(t["targets"]) >= 3 and prog.types[t["discr_ty"]]["s"] == "usize"]
+        rv = [c for c in b.calls() if canon(c.target or "").endswith("ptr::read_volatile")]
+        if sw and len(rv) >= 3:
+            cands.append((b, sw[0]))
+    OB.floor("R6.1.width_routine", len(cands), 1)
+    single = None
+    for b, (pos, sw) in cands:
+        single = b
+        arms_ok = True
+        widths = []
+        for v, tgt in sw["targets"]:
+            reads = [c for c in b.calls() if canon(c.target or "").endswith("ptr::read_volatile") and (c.bb == tgt or b.node_dominates(tgt, c.bb))]
+            writes = [c for c in b.calls() if canon(c.target or "").endswith("ptr::write_volatile") and b.node_dominates(tgt, c.bb)]
+            ok = len(reads) == 1 and len(writes) == 1
+            d = f"{len(reads)} volatile read(s), {len(writes)} volatile write(s)"
+            if ok:
+                rt = reads[0].callee_args()[0].s if reads[0].callee_args() else "?"
+                wt = writes[0].callee_args()[0].s if writes[0].callee_args() else "?"
+                rsz, wsz = prim.get(rt), prim.get(wt)
+                val = unref(writes[0].args()[1])
+                feeds = val == deep_strip(b.call_term(reads[0].t, reads[0].pos, 0))
+                src_ok = unref(reads[0].args()[0])[:2] == ('param', 2)
+                dst_ok = unref(writes[0].args()[0])[:2] == ('param', 3)
+                ok = rsz == v and wsz == v and feeds and src_ok and dst_ok
+                d = f"read_volatile::<{rt}> (size {rsz}) -> write_volatile::<{wt}> (size {wsz}); value read is the value written [{feeds}]; src/dst are the routine's pointers [{src_ok and dst_ok}]"
+            widths.append(v)
+            OB.ob("R6.1.width_arm", f"{b.key}|arm {v}", ok, b.where(), d + f"; arm value {v} must equal the access width")
+            arms_ok = arms_ok and ok
+        other = b.blocks[sw["otherwise"]]["term"]
+        OB.ob("R6.1.default_diverges", b.key, other["k"] == "call" and other.get("t") is None, b.where(), "any other width must diverge (unreachable!)")
+        OB.ob("R6.1.arm_set", b.key, sorted(widths) == [1, 2, 4, 8], b.where(), f"arms {sorted(widths)} (need 1, 2, 4, 8)")
+        n_mem = len([c for c in b.calls() if effects.prim_of(c)])
+        OB.ob("R6.1.nothing_else", b.key, n_mem == 2 * len(widths), b.where(), f"{n_mem} memory primitives for {len(widths)} arms: one read + one write per arm, nothing else touches memory")
+    if single is None:
+        return
+    # ------------------------------------------------------------ stepping loop: the caller of the width routine
+    callers = [(b, c) for b in prog.bodies for c in b.calls() if c.target == single.id]
+    OB.floor("R6.2.step_sites", len(callers), 1)
+    stepper = None
+    for b, c in callers:
+        stepper = b
+        a = [unref(x) for x in c.args()]
+        w = a[0]
+        # stride and decrement use the same width value
+        subs = [(pos, t) for pos, t in b.terms() if t["k"] == "assert" and t["msg"] == "Overflow:Sub"]
+        dec_ok = any(unref(b.term(t["ops"][1], pos)) == w for pos, t in subs)
+        adds = [x for x in b.calls() if re.search(r"(const_ptr|mut_ptr)::add$", canon(x.target or ""))]
+        stride_ok = len(adds) == 2 and all(unref(x.args()[1]) == w for x in adds)
+        OB.ob("R6.2.width_stride_agree", b.key, dec_ok and stride_ok and w[0] == 'param', b.where(c.line),
+               f"width passed `{tstr(w)}` == amount subtracted from the remaining count [{dec_ok}] == stride added to both pointers [{stride_ok}]")
+        facts = b.facts_at(c.pos)
+        # gate: !(align < w)  and  left >= w
+        _pb, al = eff.lift(b, ('deref', ('field', ('deref', ('param', 1, None)), '0')))
+        gate = [r for r in facts if r[0] == 'cmp' and r[1] == 'Ge' and unref(r[3]) == w]
+        gate_ok = len(gate) >= 2
+        OB.ob("R6.3.gate", b.key, gate_ok, b.where(c.line),
+               f"access of width w only when align >= w and left >= w: dominating facts {[tstr(r[2])[:30] + ' Ge ' + tstr(r[3]) for r in gate]}")
+    # align = min(lowbit(src), lowbit(dst)) in the parent
+    parent = prog.by_id.get(stepper.root) if stepper is not None and stepper.kind == "Closure" else stepper
+    fn_sites = []
+    if stepper is not None and stepper.kind != "Closure":
+        # the stepping pass written as a FUNCTION (free, nested or a method) that receives the alignment, the width and the copy state
+        # and hands the advanced state back: its caller is the routine, its call sites are the passes
+        fn_sites = [(b, c) for b in prog.bodies for c in b.calls() if c.target == stepper.id and b is not stepper]
+        if fn_sites and len({b.id for b, _c in fn_sites}) == 1:
+            parent = fn_sites[0][0]
+    if parent is not None:
+        env = eff.closure_env(stepper) if stepper.kind == "Closure" else None
+        al = unref(env[1][0]) if env else None
+        if fn_sites and parent is not stepper:
+            # alignment = the parameter of the pass function that is compared with the width and is not the remaining count
+            b0, c0 = callers[-1]
+            w0 = unref(c0.args()[0])
+            subs0 = [unref(b0.term(t["ops"][0], pos)) for pos, t in b0.terms() if t["k"] == "assert" and t["msg"] == "Overflow:Sub" and unref(b0.term(t["ops"][1], pos)) == w0]
+            gl = [unref(r[2]) for r in b0.facts_at(c0.pos) if r[0] == 'cmp' and r[1] == 'Ge' and unref(r[3]) == w0]
+            cand = [g for g in gl if g[0] == 'param' and g not in subs0]
+            al = None
+            if len({g[:2] for g in cand}) == 1:
+                pa = cand[0][1]
+                vals = {repr(unref(c.args()[pa - 1])) for _b, c in fn_sites if pa - 1 < len(c.args())}
+                if len(vals) == 1:
+                    al = unref(fn_sites[0][1].args()[pa - 1])
+            # the state each pass receives is the state the previous pass handed back (or the same `&mut` state object)
+            pw = w0[1] if w0[0] == 'param' else None
+            ordered = sorted(fn_sites, key=lambda bc: bc[1].pos)
+            thr_ok = pw is not None
+            prev = None
+            def borrowed_state(c_):
+                """locals M such that an argument of the call is `&mut M` (a state object handed to every pass by mutable reference)"""
+                out = set()
+                for i, a_ in enumerate(c_.t["args"]):
+                    if i + 1 in (pw, cand[0][1] if cand else -1) or "pl" not in a_ or a_["pl"].get("p"):
+                        continue
+                    l_ = a_["pl"]["l"]
+                    for _hop in range(4):
+                        ds = parent.defs(l_)
+                        if not (len(ds) == 1 and ds[0][1] == "rv" and ds[0][2]["k"] == "ref" and ds[0][2].get("mut")):
+                            break
+                        pl_ = ds[0][2]["pl"]
+                        if not pl_.get("p"):
+                            out.add(pl_["l"])
+                            break
+                        if pl_.get("p") == ["*"]:
+                            l_ = pl_["l"]      # a reborrow `&mut *r`: follow r
+                            continue
+                        break
+                return out
+            for _b, c in ordered:
+                st = [unref(x) for i, x in enumerate(c.args()) if i + 1 not in (pw, cand[0][1] if cand else -1)]
+                if prev is not None and borrowed_state(c) and borrowed_state(c) == borrowed_state(prev) and len(st) == 1:
+                    prev = c
+                    continue
+                if prev is not None:
+                    pt = deep_strip(parent.call_term(prev.t, prev.pos, 0))
+
+                    def derives(t, depth=0):
+                        t = unref(t)
+                        if any(x == pt for x in subterms(t)):
+                            return True
+                        if depth < 3:
+                            for x in subterms(t):
+                                if x[0] == 'var':
+                                    try:
+                                        ds = parent.var_defs(x[1])
+                                    except Exception:
+                                        ds = []
+                                    if any(derives(d_, depth + 1) for _p, d_ in ds):
+                                        return True
+                        return False
+                    same_obj = [x for x in st if x[0] in ('var', 'param') or (x[0] == 'ref')]
+                    thr_ok = thr_ok and bool(st) and all(derives(x) or (x in [unref(y) for y in prev.args()] and x[0] != 'param' and not any(z[0] == 'param' for z in subterms(x))) for x in st)
+                prev = c
+            OB.ob("R6.2.state_threaded", parent.key, thr_ok, parent.where(),
+                  f"{len(ordered)} passes of `{stepper.key.split('::')[-1]}`: each later pass receives the state the previous pass returned (or the same state object) [{thr_ok}]")
+        ok = False
+        d = f"align capture `{tstr(al) if al else '?'}`"
+        if al is not None and is_call(al, "cmp::min"):
+            xs = [unref(x) for x in al[2]]
+            roots = []
+            for x in xs:
+                if x[0] == 'call' and x[1] in prog.by_id:
+                    g = prog.by_id[x[1]]
+                    rt = g.return_terms()
+                    lb = lowbit(rt[0][1]) if len(rt) == 1 else None
+                    OB.ob("R6.6.lowbit_idiom", g.key, lb is not None and lb[:2] == ('param', 1), g.where(),
+                           f"alignment() returns `{tstr(deep_strip(rt[0][1])) if rt else '?'}`: must be the largest power of two dividing the address (x & (!x + 1) and equivalents)")
+                    roots.append(unref(x[2][0]))
+            ok = len(roots) == 2 and {r[:2] for r in roots} == {('param', 1), ('param', 2)}
+            d += f"; alignment roots {[tstr(r) for r in roots]}"
+        OB.ob("R6.3.both_pointers", parent.key, ok, parent.where(), d + " — BOTH pointers must feed the min")
+        # R6.4 descending widths
+        seq = []
+        for c in parent.calls():
+            if fn_sites and parent is not stepper:
+                if c.target == stepper.id:
+                    wv = unref(c.args()[pw - 1]) if pw and pw - 1 < len(c.args()) else ('x',)
+                    if wv[0] == 'const':
+                        seq.append((c.pos, wv[1]))
+                continue
+            if c.t.get("resolved") == stepper.id or (canon(c.target or "").endswith("FnMut::call_mut") and stepper.kind == "Closure"):
+                a = unref(c.args()[1])
+                if a[0] == 'agg' and len(a[3]) == 1 and unref(a[3][0])[0] == 'const':
+                    seq.append((c.pos, unref(a[3][0])[1]))
+        # every pass on EVERY path, in this order: each pass dominates the next one and the last one dominates every exit
+        # (a pass moved into an `else` / behind a target-width test would leave 4-byte transfers to two 2-byte accesses)
+        # the 8-byte pass may sit behind a test of the target's word size (`size_of::<usize>() > 4`) and nothing else
+        narrow = [(p_, v) for p_, v in seq if v <= 4]
+        chain_ok = all(parent.pos_dominates(narrow[i][0], narrow[i + 1][0]) for i in range(len(narrow) - 1))
+        for p_, v in seq:
+            if v > 4:
+                guards = [r for r in parent.facts_at(p_) if not (r[0] == 'cmp' and any(is_call(unref(x), "size_of") for x in (r[2], r[3])) and
+                                                                  any(unref(x)[0] == 'const' for x in (r[2], r[3])))]
+                chain_ok = chain_ok and not guards and bool(narrow) and narrow[0][0][0] in parent.reachable(p_[0]) and p_[0] not in parent.reachable(narrow[0][0][0])
+        exits_ok = bool(seq) and all(parent.node_dominates(seq[-1][0][0], x) for x in parent.exits())
+        order_ok = [v for _p, v in seq] == [8, 4, 2, 1] and chain_ok and exits_ok
+        OB.ob("R6.4.descending_widths", parent.key, order_ok, parent.where(),
+               f"widths tried in order {[v for _p, v in seq]} (must be 8, 4, 2, 1), each pass unconditional: dominates the next [{chain_ok}], the last dominates every exit [{exits_ok}]")
+        rts = parent.return_terms()
+        # R6.5 routing
+        routers = [(b, c) for b in prog.bodies for c in b.calls() if c.target == parent.id]
+        for b, c in routers:
+            facts = b.facts_at(c.pos)
+            def word(x):
+                # the threshold is the machine word (the widest access the ladder can make): size_of::<usize>() — a narrower
+                # type would send aligned 8-byte transfers to memcpy
+                x = unref(x)
+                return is_call(x, "size_of") and len(x) > 3 and tuple(x[3]) in (("usize",), ("u64",), ("isize",), ("i64",))
+            ok = any(r[0] == 'cmp' and r[1] == 'Le' and unref(r[2])[:2] == ('param', 3) and word(r[3]) for r in facts)
+            bulk = [x for x in b.calls() if re.search(r"ptr::copy(_nonoverlapping)?$", canon(x.target or ""))]
+            bulk_ok = all(any(r[0] == 'cmp' and r[1] == 'Gt' and unref(r[2])[:2] == ('param', 3) and word(r[3]) for r in b.facts_at(x.pos)) for x in bulk) and bool(bulk)
+            OB.ob("R6.5.routing", b.key, ok and bulk_ok, b.where(c.line),
+                   f"total <= size_of::<usize>() (non-strict) routes to the volatile routine [{ok}]; the bulk copy only for total > size_of::<usize>() [{bulk_ok}]")
+
+
 def run(ctx, progs):
     for cfg, prog in progs.items():
         ctx.config = cfg
         eff = effects.Effects(prog)
         prim = {p["ty"]: p["size"] for p in prog.j["prim_layouts"]}
-        # ------------------------------------------------------------ find the width-switching routine by effect
-        cands = []
-        for b in prog.bodies:
-            if b.kind == "Promoted":
-                continue
-            sw = [(pos, t) for pos, t in b.terms() if t["k"] == "switch" and len(t["targets"]) >= 3 and prog.types[t["discr_ty"]]["s"] == "usize"]
-            rv = [c for c in b.calls() if canon(c.target or "").endswith("ptr::read_volatile")]
-            if sw and len(rv) >= 3:
-                cands.append((b, sw[0]))
-        ctx.floor("R6.1.width_routine", len(cands), 1)
-        single = None
-        for b, (pos, sw) in cands:
-            single = b
-            arms_ok = True
-            widths = []
-            for v, tgt in sw["targets"]:
-                reads = [c for c in b.calls() if canon(c.target or "").endswith("ptr::read_volatile") and (c.bb == tgt or b.node_dominates(tgt, c.bb))]
-                writes = [c for c in b.calls() if canon(c.target or "").endswith("ptr::write_volatile") and b.node_dominates(tgt, c.bb)]
-                ok = len(reads) == 1 and len(writes) == 1
-                d = f"{len(reads)} volatile read(s), {len(writes)} volatile write(s)"
-                if ok:
-                    rt = reads[0].callee_args()[0].s if reads[0].callee_args() else "?"
-                    wt = writes[0].callee_args()[0].s if writes[0].callee_args() else "?"
-                    rsz, wsz = prim.get(rt), prim.get(wt)
-                    val = unref(writes[0].args()[1])
-                    feeds = val == deep_strip(b.call_term(reads[0].t, reads[0].pos, 0))
-                    src_ok = unref(reads[0].args()[0])[:2] == ('param', 2)
-                    dst_ok = unref(writes[0].args()[0])[:2] == ('param', 3)
-                    ok = rsz == v and wsz == v and feeds and src_ok and dst_ok
-                    d = f"read_volatile::<{rt}> (size {rsz}) -> write_volatile::<{wt}> (size {wsz}); value read is the value written [{feeds}]; src/dst are the routine's pointers [{src_ok and dst_ok}]"
-                widths.append(v)
-                ctx.ob("R6.1.width_arm", f"{b.key}|arm {v}", ok, b.where(), d + f"; arm value {v} must equal the access width")
-                arms_ok = arms_ok and ok
-            other = b.blocks[sw["otherwise"]]["term"]
-            ctx.ob("R6.1.default_diverges", b.key, other["k"] == "call" and other.get("t") is None, b.where(), "any other width must diverge (unreachable!)")
-            ctx.ob("R6.1.arm_set", b.key, sorted(widths) == [1, 2, 4, 8], b.where(), f"arms {sorted(widths)} (need 1, 2, 4, 8)")
-            n_mem = len([c for c in b.calls() if effects.prim_of(c)])
-            ctx.ob("R6.1.nothing_else", b.key, n_mem == 2 * len(widths), b.where(), f"{n_mem} memory primitives for {len(widths)} arms: one read + one write per arm, nothing else touches memory")
-        if single is None:
-            continue
-        # ------------------------------------------------------------ stepping loop: the caller of the width routine
-        callers = [(b, c) for b in prog.bodies for c in b.calls() if c.target == single.id]
-        ctx.floor("R6.2.step_sites", len(callers), 1)
-        stepper = None
-        for b, c in callers:
-            stepper = b
-            a = [unref(x) for x in c.args()]
-            w = a[0]
-            # stride and decrement use the same width value
-            subs = [(pos, t) for pos, t in b.terms() if t["k"] == "assert" and t["msg"] == "Overflow:Sub"]
-            dec_ok = any(unref(b.term(t["ops"][1], pos)) == w for pos, t in subs)
-            adds = [x for x in b.calls() if re.search(r"(const_ptr|mut_ptr)::add$", canon(x.target or ""))]
-            stride_ok = len(adds) == 2 and all(unref(x.args()[1]) == w for x in adds)
-            ctx.ob("R6.2.width_stride_agree", b.key, dec_ok and stride_ok and w[0] == 'param', b.where(c.line),
-                   f"width passed `{tstr(w)}` == amount subtracted from the remaining count [{dec_ok}] == stride added to both pointers [{stride_ok}]")
-            facts = b.facts_at(c.pos)
-            # gate: !(align < w)  and  left >= w
-            _pb, al = eff.lift(b, ('deref', ('field', ('deref', ('param', 1, None)), '0')))
-            gate = [r for r in facts if r[0] == 'cmp' and r[1] == 'Ge' and unref(r[3]) == w]
-            gate_ok = len(gate) >= 2
-            ctx.ob("R6.3.gate", b.key, gate_ok, b.where(c.line),
-                   f"access of width w only when align >= w and left >= w: dominating facts {[tstr(r[2])[:30] + ' Ge ' + tstr(r[3]) for r in gate]}")
-        # align = min(lowbit(src), lowbit(dst)) in the parent
-        parent = prog.by_id.get(stepper.root) if stepper is not None and stepper.kind == "Closure" else stepper
-        if parent is not None:
-            env = eff.closure_env(stepper) if stepper.kind == "Closure" else None
-            al = unref(env[1][0]) if env else None
-            ok = False
-            d = f"align capture `{tstr(al) if al else '?'}`"
-            if al is not None and is_call(al, "cmp::min"):
-                xs = [unref(x) for x in al[2]]
-                roots = []
-                for x in xs:
-                    if x[0] == 'call' and x[1] in prog.by_id:
-                        g = prog.by_id[x[1]]
-                        rt = g.return_terms()
-                        lb = lowbit(rt[0][1]) if len(rt) == 1 else None
-                        ctx.ob("R6.6.lowbit_idiom", g.key, lb is not None and lb[:2] == ('param', 1), g.where(),
-                               f"alignment() returns `{tstr(deep_strip(rt[0][1])) if rt else '?'}`: must be the largest power of two dividing the address (x & (!x + 1) and equivalents)")
-                        roots.append(unref(x[2][0]))
-                ok = len(roots) == 2 and {r[:2] for r in roots} == {('param', 1), ('param', 2)}
-                d += f"; alignment roots {[tstr(r) for r in roots]}"
-            ctx.ob("R6.3.both_pointers", parent.key, ok, parent.where(), d + " — BOTH pointers must feed the min")
-            # R6.4 descending widths
-            seq = []
-            for c in parent.calls():
-                if c.t.get("resolved") == stepper.id or (canon(c.target or "").endswith("FnMut::call_mut") and stepper.kind == "Closure"):
-                    a = unref(c.args()[1])
-                    if a[0] == 'agg' and len(a[3]) == 1 and unref(a[3][0])[0] == 'const':
-                        seq.append((c.pos, unref(a[3][0])[1]))
-            # every pass on EVERY path, in this order: each pass dominates the next one and the last one dominates every exit
-            # (a pass moved into an `else` / behind a target-width test would leave 4-byte transfers to two 2-byte accesses)
-            # the 8-byte pass may sit behind a test of the target's word size (`size_of::<usize>() > 4`) and nothing else
-            narrow = [(p_, v) for p_, v in seq if v <= 4]
-            chain_ok = all(parent.pos_dominates(narrow[i][0], narrow[i + 1][0]) for i in range(len(narrow) - 1))
-            for p_, v in seq:
-                if v > 4:
-                    guards = [r for r in parent.facts_at(p_) if not (r[0] == 'cmp' and any(is_call(unref(x), "size_of") for x in (r[2], r[3])) and
-                                                                      any(unref(x)[0] == 'const' for x in (r[2], r[3])))]
-                    chain_ok = chain_ok and not guards and bool(narrow) and narrow[0][0][0] in parent.reachable(p_[0]) and p_[0] not in parent.reachable(narrow[0][0][0])
-            exits_ok = bool(seq) and all(parent.node_dominates(seq[-1][0][0], x) for x in parent.exits())
-            order_ok = [v for _p, v in seq] == [8, 4, 2, 1] and chain_ok and exits_ok
-            ctx.ob("R6.4.descending_widths", parent.key, order_ok, parent.where(),
-                   f"widths tried in order {[v for _p, v in seq]} (must be 8, 4, 2, 1), each pass unconditional: dominates the next [{chain_ok}], the last dominates every exit [{exits_ok}]")
-            rts = parent.return_terms()
-            # R6.5 routing
-            routers = [(b, c) for b in prog.bodies for c in b.calls() if c.target == parent.id]
-            for b, c in routers:
-                facts = b.facts_at(c.pos)
-                def word(x):
-                    # the threshold is the machine word (the widest access the ladder can make): size_of::<usize>() — a narrower
-                    # type would send aligned 8-byte transfers to memcpy
-                    x = unref(x)
-                    return is_call(x, "size_of") and len(x) > 3 and tuple(x[3]) in (("usize",), ("u64",), ("isize",), ("i64",))
-                ok = any(r[0] == 'cmp' and r[1] == 'Le' and unref(r[2])[:2] == ('param', 3) and word(r[3]) for r in facts)
-                bulk = [x for x in b.calls() if re.search(r"ptr::copy(_nonoverlapping)?$", canon(x.target or ""))]
-                bulk_ok = all(any(r[0] == 'cmp' and r[1] == 'Gt' and unref(r[2])[:2] == ('param', 3) and word(r[3]) for r in b.facts_at(x.pos)) for x in bulk) and bool(bulk)
-                ctx.ob("R6.5.routing", b.key, ok and bulk_ok, b.where(c.line),
-                       f"total <= size_of::<usize>() (non-strict) routes to the volatile routine [{ok}]; the bulk copy only for total > size_of::<usize>() [{bulk_ok}]")
+        # ------------------------------------------------------------ the width routine and the stepping loop (R6.1 – R6.6)
+        # decided on the program in its inlining normal form and, if that does not recognise the routine (e.g. the stepping closure
+        # was turned into a function that threads its state through a tuple or struct), on the program as written; each view is a
+        # sufficient argument on its own
+        A = _Collect()
+        stepping_rules(A, prog, eff, prim)
+        chosen = A
+        if not A.good():
+            p0 = prog.pristine()
+            B0 = _Collect()
+            try:
+                stepping_rules(B0, p0, effects.Effects(p0), prim)
+            except Exception as ex:      # noqa: fail closed on the first view's verdict
+                B0.obs.append(("R6.1.width_routine", "as-written view", False, "", f"not evaluable: {ex}"))
+            if B0.good():
+                chosen = B0
+        for a, k in chosen.floors:
+            ctx.floor(*a, **k)
+        for rule, inst, ok, where, detail in chosen.obs:
+            ctx.ob(rule, inst, ok, where, detail + ("" if chosen is A else " [decided on the program as written, before inlining]"))
         # ------------------------------------------------------------ R6.7 containment of the small-object routes
         other_prims = set()
         for role in ("dst", "src"):
